@@ -313,6 +313,46 @@ class DefInt(IntVal):
     def cparam(self, lang): return "int %s = %d" % (self.n, self.default)
 
 
+GEN_DBLS = ["2.5", "-0.25", "1024.0", "0.0"]
+
+
+class GenDbl(K):
+    """double argument reached through fortran_generic variants (float / double); values exact in both"""
+    nvals = 4
+    gen = [("(float %s)", "_float"), ("(double %s)", "_double")]
+
+    def yaml(self): return "double %s" % self.n
+    def cparam(self, lang): return "double %s" % self.n
+    def body(self, lang): return ['printf(" %s=d:%%.17g", %s);' % (self.n, self.n)]
+    def factual(self, r): return GEN_DBLS[r % 4] + ("_C_FLOAT" if r % 2 == 0 else "_C_DOUBLE")
+    def lib_tokens(self, r, cnt, env): return ["%s=d:%s" % (self.n, GEN_DBLS[r % 4])]
+
+
+class GenArr(K):
+    """`const int *v, int nv` reached through a scalar and a rank(1) fortran_generic variant"""
+    nvals = 6
+    gen = [("(const int *%s)", "_scalar"), ("(const int *%s +rank(1))", "_array")]
+
+    def yaml(self): return "const int *%s, int n%s" % (self.n, self.n)
+    def cparam(self, lang): return "const int *%s, int n%s" % (self.n, self.n)
+    def body(self, lang):
+        return ['printf(" n%s=i:%%d %s=a:", n%s);' % (self.n, self.n, self.n),
+                '{ int i_; for (i_ = 0; i_ < n%s; i_++) printf("%%d,", %s[i_]); }' % (self.n, self.n)]
+    def fdecl(self): return ["integer(C_INT) :: %s_s" % self.n, "integer(C_INT), allocatable :: %s_a(:)" % self.n]
+    def _vals(self, r): return [70 + r] if r % 2 == 0 else ARRS[(r // 2) % 3]
+    def fset(self, r):
+        if r % 2 == 0:
+            return ["%s_s = %d" % (self.n, 70 + r)]
+        a = self._vals(r)
+        return ["if (allocated(%s_a)) deallocate(%s_a)" % (self.n, self.n), "allocate(%s_a(%d))" % (self.n, len(a))] + \
+               ["%s_a(%d) = %d" % (self.n, i + 1, v) for i, v in enumerate(a)]
+    def factual(self, r):
+        return "%s_s, 1_C_INT" % self.n if r % 2 == 0 else "%s_a, size(%s_a, kind=C_INT)" % (self.n, self.n)
+    def lib_tokens(self, r, cnt, env):
+        a = self._vals(r)
+        return ["n%s=i:%d" % (self.n, len(a)), "%s=a:%s" % (self.n, "".join("%d," % v for v in a))]
+
+
 ARG_KINDS_C = [IntVal, DblVal, BoolVal, BoolOut, BoolInout, IntOut, IntInout, HiddenOut, ArrIn, ArrInout, CstrIn, CstrOut, CstrInout]
 ARG_KINDS_CXX = ARG_KINDS_C + [IntRefOut, StringIn, StringOut, StringInout]
 
@@ -343,6 +383,13 @@ class Func:
         self.name, self.res, self.args = name, res, args
         self.overload_of = overload_of
 
+    def generic_list(self):
+        """fortran_generic entries (only the argument that varies is listed; Shroud copies the others)"""
+        g = [a for a in self.args if hasattr(a, "gen")]
+        if not g:
+            return None
+        return [{"decl": d % g[0].n, "function_suffix": sfx} for d, sfx in g[0].gen]
+
     def cxx_only(self):
         return any(a.cxx_only for a in self.args) or (self.res != "void" and RESULTS[self.res][7]) or self.overload_of is not None
 
@@ -360,6 +407,8 @@ def gen_spec(r, cxx, nfunc):
             for j in range(nd):
                 args.append(DefInt("d%d%d" % (i, j), r.randrange(1, 90)))
         funcs.append(Func("fn%d" % i, res, args))
+    if r.random() < 0.6:
+        funcs += generic_funcs(cxx, "r")
     if cxx and r.random() < 0.7:
         i = len(funcs)
         funcs.append(Func("ov", "void", [IntVal("xi")], overload_of="i"))
@@ -367,6 +416,19 @@ def gen_spec(r, cxx, nfunc):
         if r.random() < 0.5:
             funcs.append(Func("ov", "void", [IntVal("xj"), CstrIn("xs")], overload_of="is"))
     return funcs
+
+
+def generic_funcs(cxx, sfx):
+    """two fortran_generic functions with scalar / rank(1) variants and the same C signature in one scope, and a
+    fortran_generic function with a character argument (generic clone -> function -> bufferify / CFI clone)"""
+    sk = StringIn if cxx else CstrIn
+    fs = [Func("gsum" + sfx, "int", [GenArr("values" + sfx)]),
+          Func("gtag" + sfx, "void", [sk("gn" + sfx), GenDbl("gv" + sfx)]),
+          # same parameter names and C signature as gsum: only the library entry point differs
+          Func("gmax" + sfx, "int", [GenArr("values" + sfx)])]
+    if sfx:
+        fs.append(Func("gout" + sfx, "cstr", [GenDbl("gw" + sfx), CstrInout("gc" + sfx)]))
+    return fs
 
 
 def fixed_spec(cxx):
@@ -378,6 +440,11 @@ def fixed_spec(cxx):
     for i, res in enumerate(dict.fromkeys(RES_CXX if cxx else RES_C)):
         if res != "void":
             funcs.append(Func("r%d" % i, res, [IntVal("q%d" % i)]))
+    funcs += generic_funcs(cxx, "")
+    if cxx:
+        funcs.append(Func("dstr", "int", [StringIn("ds"), CstrOut("dc"), DefInt("e1", 5), DefInt("e2", 6)]))
+        funcs.append(Func("ovs", "void", [StringIn("os1")], overload_of="s"))
+        funcs.append(Func("ovs", "void", [IntVal("oi"), CstrIn("os2")], overload_of="is"))
     if cxx:
         funcs.append(Func("dflt", "int", [IntVal("p"), DefInt("d1", 11), DefInt("d2", 22)]))
         funcs.append(Func("ov", "void", [IntVal("xi")], overload_of="i"))
@@ -392,7 +459,10 @@ def yaml_text(lib, funcs, cxx, options):
         rt = "void" if f.res == "void" else RESULTS[f.res][0]
         attrs = "" if f.res == "void" else RESULTS[f.res][1]
         decl = "%s %s(%s)%s" % (rt, f.name, ", ".join(a.yaml() for a in f.args) if f.args or cxx else "void", attrs)
-        decls.append({"decl": decl})
+        dd = {"decl": decl}
+        if f.generic_list():
+            dd["fortran_generic"] = f.generic_list()
+        decls.append(dd)
     d = {"library": lib, "cxx_header": lib + (".hpp" if cxx else ".h"), "language": "c++" if cxx else "c",
          "options": dict({"wrap_python": False, "wrap_lua": False}, **options), "declarations": decls}
     return yaml.safe_dump(d, sort_keys=False)
